@@ -35,6 +35,25 @@ pub struct ModuleImports {
     pub next_call_site_slot: u16,        // next available call site slot after loading all modules
 }
 
+impl ModuleImports {
+    /// Adds the names the VM registers on its own (`print`, ...), which a program may use
+    /// without any `needs`. `run` compiles against them; a command that only compiles has to
+    /// see the same set, or it rejects a program that runs.
+    pub fn include_auto_registered(&mut self, vm: &aelys_runtime::VM) {
+        self.known_globals
+            .extend(vm.repl_known_globals().iter().cloned());
+        self.module_aliases
+            .extend(vm.repl_module_aliases().iter().cloned());
+        self.known_native_globals
+            .extend(vm.repl_known_native_globals().iter().cloned());
+        for (symbol, origin) in vm.repl_symbol_origins() {
+            self.symbol_origins
+                .entry(symbol.clone())
+                .or_insert_with(|| origin.clone());
+        }
+    }
+}
+
 pub enum LoadResult {
     Module(String), // qualified access: mod.func
     Symbol(String), // direct access
